@@ -109,6 +109,11 @@ func init() {
 				r.H("e2e.feature", f)
 			}
 			r.H("e2e.v1.fields", itoa(len(sp.V1)))
+		r.H("e2e.cfg", sp.Cfg.get().String())
+		r.H("e2e.call", fmt.Sprintf("v1:%d values, v2:%d values", len(c20CallArgs(nil, sp.Extra1)), len(c20CallArgs(nil, sp.Extra2))))
+		for _, d := range c20Demanded(sp.V2, sp.Cfg.get(), c20Explicit(sp.Extra1, sp.Extra2)) {
+			r.H("e2e.nested-association", d)
+		}
 			if o.Stage == "ok" {
 				kinds := map[string]bool{}
 				for _, s := range o.V2DDL {
